@@ -2,6 +2,6 @@ SPECIFICATION Spec
 CONSTANTS
   MaxId = 2
   NKeys = 2
-INVARIANT TypeInv GetReturnsPut AbsentIsAbsent LenAgrees KeyLaws
+INVARIANT TypeInv GetReturnsPut AbsentIsAbsent LenAgrees KeyLaws BatchLaws IterLaws
 PROPERTY NoLiveIdReissued IssuedMonotone FewIdsChange
 CHECK_DEADLOCK FALSE
